@@ -18,7 +18,7 @@ import randschema
 FAMILY = "tl2"
 DRIVER_FILES = ["main.go", "ops_tl1.go", "ops_tl2.go"]
 MODEL_MAX_LINE = 300000
-CORPUS_UNITS = ("cases", "goldmaster", "probe_reclist")
+CORPUS_UNITS = ("cases", "goldmaster", "probe_reclist", "cases_tl2", "wide")
 
 
 def write_ir2_file(ins, path):
@@ -326,6 +326,15 @@ class Sources:
                     break
                 boxed = 1 if x["kind"] == "union" or self.rng.random() < 0.5 else 0
                 lines.append(f"enc 0 {tid} {name} {boxed} | {vtext(v)}")
+                if x["kind"] == "struct" and len(x["fields"]) >= 8 and not x.get("isAlias"):
+                    # only fields of the first presence block(s) non-default: the body ends at a block boundary
+                    for cut in {self.rng.randrange(1, 8), self.rng.randrange(1, len(x["fields"]) + 1)}:
+                        try:
+                            sv = sparsify(self.u.ins, tid, v, cut)
+                        except Budget:
+                            continue
+                        lines.append(f"enc 0 {tid} {name} {boxed} | {vtext(sv)}")
+                        self.stats["sparse_values"] = self.stats.get("sparse_values", 0) + 1
         rc, out, err = run_lines(self.ref, [str(self.u.ir_path)], lines)
         res = []
         if rc != 0 or len(out) != len(lines):
@@ -451,3 +460,257 @@ def evolution_specs(ctx, n):
             (d / "s.tl").write_text(text)
             specs.append((f"evo{i}_{tag}", [d / "s.tl"], ["--tl2WhiteList=*"], "*", True))
     return specs
+
+
+# --------------------------------------------------------------------------- TL2-origin schemas (C03: oracle only, not modelled)
+
+TL2_PRIMS = ["uint32", "int32", "int64", "uint64", "float64", "float32", "string", "bool", "byte"]
+
+
+def rand_tl2_schema(rng, ntypes=8):
+    """Random .tl2 schema text: structs with 1-20 fields, optional fields, bits, reserved `_:T`
+    fields at any index (forced onto the presence-block boundaries 7 / 15 in some structs),
+    unions, enums, arrays, fixed arrays, maps, aliases.  Only earlier types are referenced."""
+    lines = []
+    structs, unions, aliases = [], [], []
+
+    def texpr(depth=0):
+        x = rng.random()
+        if x < 0.45 or depth >= 2:
+            return rng.choice(TL2_PRIMS)
+        if x < 0.60:
+            return "[]" + texpr(depth + 1)
+        if x < 0.66:
+            return f"[{rng.choice([0, 1, 2, 3, 8, 9])}]" + texpr(depth + 1)
+        if x < 0.70:
+            return f"[{rng.choice(['string', 'int32', 'int64', 'uint32'])}]" + texpr(depth + 1)
+        pool = structs + unions + aliases
+        if pool and x < 0.95:
+            return rng.choice(pool)
+        return rng.choice(TL2_PRIMS)
+
+    def fields(nf, prefix="f"):
+        fs = []
+        forced = set()
+        if nf > 8 and rng.random() < 0.6:
+            forced.add(7)
+        if nf > 16 and rng.random() < 0.6:
+            forced.add(15)
+        for i in range(nf):
+            if i in forced or rng.random() < 0.08:
+                fs.append("_:" + texpr())
+            elif rng.random() < 0.15:
+                fs.append(f"{prefix}{i}:bit")
+            elif rng.random() < 0.3:
+                fs.append(f"{prefix}{i}?:{texpr()}")
+            else:
+                fs.append(f"{prefix}{i}:{texpr()}")
+        return " ".join(fs)
+
+    for i in range(ntypes):
+        k = rng.random()
+        if k < 0.6:
+            nf = rng.choice([1, 2, 3, 5, 7, 8, 9, 10, 12, 15, 16, 17, 20])
+            lines.append(f"r.s{i} = {fields(nf)} ;")
+            structs.append(f"r.s{i}")
+        elif k < 0.8:
+            vs = []
+            for j in range(rng.choice([2, 3, 4])):
+                m = rng.random()
+                if m < 0.3:
+                    vs.append(f"| v{j}")
+                elif m < 0.45:
+                    vs.append(f"| v{j} {texpr(1)}")
+                else:
+                    vs.append(f"| v{j} {fields(rng.choice([1, 2, 3, 8, 9, 10]), 'g')}")
+            lines.append(f"r.U{i} = " + " ".join(vs) + " ;")
+            unions.append(f"r.U{i}")
+        elif k < 0.9:
+            lines.append(f"r.a{i} <=> {texpr()} ;")
+            aliases.append(f"r.a{i}")
+        else:
+            lines.append(f"r.E{i} = | a | b | c ;")
+            unions.append(f"r.E{i}")
+    # one struct that always has reserved fields on both boundaries and plain fields around them
+    lines.append("r.wide = " + " ".join(("_:uint32" if i in (7, 15) else f"w{i}:{rng.choice(['uint32', 'string', 'int64', 'bool'])}") for i in range(18)) + " ;")
+    return "\n".join(lines) + "\n"
+
+
+class Tl2OriginUnit:
+    """A TL2-origin schema generated and built with the current generator (no IR, no model)."""
+
+    def __init__(self, ctx, name, files, bins):
+        self.name, self.files = name, files
+        self.error = None
+        self.gen = None
+        g = GenPkg(ctx.scratch, name, bins["tl2gen"], files, ["--tl2WhiteList=*"], driver_files=DRIVER_FILES)
+        if not g.generate():
+            self.error = "tl2gen: " + g.gen_log[-800:]
+        elif not g.build():
+            self.error = "go build: " + g.gen_log[-1500:]
+        else:
+            self.gen = g
+
+    def names(self):
+        rc, items, err = run_lines(self.gen.exe, [], ["items"])
+        res = []
+        if items and items[0].startswith("ok "):
+            for x in items[0][3:].split(";"):
+                p = x.split(",")
+                if len(p) >= 5 and p[4] == "true":
+                    res.append(p[0])
+        return res
+
+
+# --------------------------------------------------------------------------- wide structs (presence-block boundaries)
+
+def wide_schema(rng):
+    """TL1 schema with structs of 8-20 fields (several presence blocks), local masks incl. bits"""
+    lines = ["w.inner a:int b:string = w.Inner;"]
+    names = []
+    for k in range(3):
+        nf = rng.choice([8, 9, 10, 12, 15, 16, 17, 20])
+        fs = ["m:#"]
+        bit = 0
+        for i in range(1, nf):
+            t = rng.choice(["int", "long", "string", "double", "Bool", "(vector int)", "(Maybe int)", "w.inner", "(tuple int 2)"] + names)
+            r = rng.random()
+            if r < 0.2 and bit < 31:
+                fs.append(f"f{i}:m.{bit}?{rng.choice(['int', 'string', 'true', 'true', 'long'])}")
+                bit += 1
+            else:
+                fs.append(f"f{i}:{t}")
+        lines.append(f"w.s{k} {' '.join(fs)} = w.S{k};")
+        names.append(f"w.s{k}")
+    lines.append("w.box items:(vector w.s0) last:w.s2 = w.Box;")
+    return randschema.HEADER + "\n".join(lines) + "\n"
+
+
+def wide_spec(ctx):
+    d = Path(ctx.scratch) / "wide"
+    d.mkdir(exist_ok=True)
+    (d / "s.tl").write_text(wide_schema(ctx.rng))
+    return ("wide", [d / "s.tl"], ["--tl2WhiteList=*"], "*", True)
+
+
+def default_value(ins, tid, depth=0):
+    """the default (Reset) value of an instance in ValueGen's representation"""
+    x = ins[tid]
+    k = x["kind"]
+    if depth > 40:
+        raise Budget("default too deep")
+    if k == "prim":
+        p = PRIM_MAP.get(x["name"], "notl1")
+        if p == "string":
+            return ("s", b"")
+        if p == "bool":
+            return ("b", False)
+        if p == "notl1":
+            raise Budget("no TL1 default")
+        return ("n", 0)
+    if k == "struct":
+        return ("S", [None if f.get("mask") is not None else default_value(ins, f["type"], depth + 1) for f in x["fields"]])
+    if k == "union":
+        v0 = ins[x["variants"][0]]
+        return ("U", 0, [None if f.get("mask") is not None else default_value(ins, f["type"], depth + 1) for f in v0["fields"]])
+    if k == "array" and x.get("isTuple") and not x.get("dynamicSize"):
+        return ("A", [default_value(ins, x["elem"]["type"], depth + 1) for _ in range(x.get("count", 0))])
+    return ("A", [])
+
+
+def sparsify(ins, tid, v, cut):
+    """the struct value [v] with every field from index [cut] on made absent / default (mask bits
+    of the local mask fields cleared accordingly)"""
+    x = ins[tid]
+    if x["kind"] != "struct" or v[0] != "S":
+        return v
+    fs = list(v[1])
+    for i in range(cut, len(fs)):
+        f = x["fields"][i]
+        m = f.get("mask")
+        if m is not None:
+            fs[i] = None
+            if m["kind"] == "field" and fs[m["value"]] is not None and fs[m["value"]][0] == "n":
+                fs[m["value"]] = ("n", fs[m["value"]][1] & ~(1 << f["bit"]))
+            elif m["kind"] != "field":
+                return v
+        else:
+            fs[i] = default_value(ins, f["type"])
+    return ("S", fs)
+
+
+def oracle_only_run(pid, u, rng, nrand, nmut):
+    """Model-free oracle on a TL2-origin unit: FillRandom values are written, read back and
+    re-written (identical bytes, exact consumption, idempotence, reused object), byte mutations
+    must not panic and what they decode to must re-write idempotently.
+    Returns (bad [(unit, op, result, sig)], stats)."""
+    bad = []
+    st = {"types": 0, "values": 0, "mutated": 0, "accepted_mutated": 0, "ops": 0, "fillrandom_failures_left_to_C18": 0}
+    names = u.names()
+    st["types"] = len(names)
+    rl = [f"rand2 {n} {rng.getrandbits(48)}" for n in names for _ in range(nrand)]
+    ro = run_lines_resilient(u.gen.exe, [], rl, timeout=600)
+    vals, retry = [], []
+    for l, o in zip(rl, ro):
+        if o.startswith("ok "):
+            vals.append((l.split(" ")[1], o[3:]))
+        else:
+            retry.append((l, o))
+    if retry:
+        r1 = run_lines_resilient(u.gen.exe, [], [l.replace("rand2 ", "fill2 ", 1) for l, o in retry], timeout=600)
+        for (l, o), o1 in zip(retry, r1):
+            if o1 == "ok":
+                bad.append((u.name, l, o, f"{pid}:tl2-origin:write-crash:{u.name}:{l.split(' ')[1]}"))
+            else:
+                st["fillrandom_failures_left_to_C18"] += 1
+    st["values"] = len(vals)
+    ops = [(f"rw2 0 {n} {h}", True) for n, h in vals]
+    for n, h in vals:
+        b = bytes.fromhex(h) if h != "-" else b""
+        for _ in range(nmut):
+            ops.append((f"rw2 0 {n} {mutate2(rng, b).hex() or '-'}", False))
+            st["mutated"] += 1
+    lines = [o[0] for o in ops]
+    go = run_lines_resilient(u.gen.exe, [], lines, timeout=900)
+    idem, dirty = [], []
+    longest = {}
+    for n, h in vals:
+        if h != "-" and len(h) > len(longest.get(n, "")):
+            longest[n] = h
+    for (l, own), g in zip(ops, go):
+        f = l.split(" ")
+        if g.startswith(("panic", "crash", "driver-error")):
+            bad.append((u.name, l, g, f"{pid}:tl2-origin:panic:{u.name}:{f[2]}"))
+            continue
+        if own:
+            n = 0 if f[3] == "-" else len(f[3]) // 2
+            if g != f"ok {n} {f[3]}":
+                bad.append((u.name, l, g, f"{pid}:tl2-origin:roundtrip:{u.name}:{f[2]}"))
+        elif g.startswith("ok "):
+            st["accepted_mutated"] += 1
+        if g.startswith("ok "):
+            idem.append(f"idem2 0 {f[2]} {f[3]}")
+            if f[2] in longest:
+                dirty.append((f"rw2d 0 {f[2]} {longest[f[2]]} {f[3]}", g))
+    io = run_lines_resilient(u.gen.exe, [], idem, timeout=900)
+    for l, g in zip(idem, io):
+        if g != "ok":
+            bad.append((u.name, l, g, f"{pid}:tl2-origin:idempotence:{u.name}:{l.split(' ')[2]}"))
+    do = run_lines_resilient(u.gen.exe, [], [x[0] for x in dirty], timeout=900)
+    for (l, want), g in zip(dirty, do):
+        if g != want and g != "dirty-err":
+            bad.append((u.name, l, g + " (a fresh object gives " + trunc(want, 120) + ")", f"{pid}:tl2-origin:reused-object:{u.name}:{l.split(' ')[2]}"))
+    st["ops"] = len(lines) + len(idem) + len(dirty)
+    return bad, st
+
+
+def tl2_origin_units(ctx, bins, n_rand):
+    """cases.tl2 of the repository and n_rand random .tl2 schemas, generated + built (parallel)"""
+    specs = [("cases_tl2", [REPO / "internal/tlcodegen/test/tls/cases.tl2"])]
+    for i in range(n_rand):
+        d = Path(ctx.scratch) / f"rt{i}"
+        d.mkdir(exist_ok=True)
+        (d / "s.tl2").write_text(rand_tl2_schema(ctx.rng, ntypes=ctx.rng.choice([5, 8, 10])))
+        specs.append((f"rt{i}", [d / "s.tl2"]))
+    with ThreadPoolExecutor(max_workers=8) as ex:
+        return list(ex.map(lambda sp: Tl2OriginUnit(ctx, sp[0], sp[1], bins), specs))
